@@ -1,5 +1,6 @@
 (** Correspondence glue for C15: one case = configuration + abstract dataset (as pydicom presents it) +
     what MetaExtractor(...)(dataset) returned (or the class of the exception it raised). *)
+From Coq Require Import Strings.String.
 From Coq Require Import List Bool NArith ZArith.
 From DV Require Import Common.Res Common.Str Generated.T_extract Extract.Model.
 Import ListNotations.
